@@ -162,6 +162,24 @@ func c06Run(e *core.Env) {
 			}
 		}
 	}
+	// no shared storage between a BigInt and the math/big values it is set from or converted to: after
+	// SetMathBigInt(arg) in-place arithmetic on the receiver must not reach arg, changing arg must not reach the
+	// receiver, and the value returned by MathBigInt must be independent of the receiver
+	for bi := range c16Alphabet {
+		if !e.Mine(int64(bi)) {
+			continue
+		}
+		v := c16Alphabet[bi]
+		hist := v.String()
+		failS := func(msg string) {
+			e.Fail("BigInt-storage", "storage", purityCase{Op: "SetMathBigInt/MathBigInt", Hist: hist}, fmt.Sprintf("value %s: %s", shortBig(v), msg))
+		}
+		if msg := c06Storage(v); msg != "" {
+			failS(msg)
+		}
+		e.TransOnly(6)
+		e.Outcome("BigInt/no-shared-storage", false)
+	}
 	// setters (no Decimal operand)
 	for si, o := range setterDops {
 		if !e.Mine(int64(si)) {
@@ -370,6 +388,73 @@ func firstDiffStr(a, b string) string {
 	return fmt.Sprintf("at offset %d: ...%s... became ...%s...", i, ca[lo:], cb[lo:])
 }
 
+// c06Storage checks that SetMathBigInt / MathBigInt / NewWithBigInt / Set copy instead of sharing words.
+func c06Storage(v *big.Int) (msg string) {
+	defer func() {
+		if r := recover(); r != nil {
+			msg = fmt.Sprintf("panic: %v", r)
+		}
+	}()
+	one := apd.NewBigInt(1)
+	bump := func(z *apd.BigInt) {
+		// in-place arithmetic that keeps the size: +1, -1, +1
+		z.Add(z, one)
+		z.Sub(z, one)
+		z.Add(z, one)
+	}
+	// receiver written after SetMathBigInt
+	arg := new(big.Int).Set(v)
+	var z apd.BigInt
+	z.SetMathBigInt(arg)
+	bump(&z)
+	if arg.Cmp(v) != 0 {
+		return fmt.Sprintf("in-place arithmetic on a BigInt set by SetMathBigInt rewrote the caller's big.Int (now %s)", shortBig(arg))
+	}
+	// argument written after SetMathBigInt
+	arg2 := new(big.Int).Set(v)
+	var z2 apd.BigInt
+	z2.SetMathBigInt(arg2)
+	arg2.Add(arg2, big.NewInt(1))
+	arg2.Neg(arg2)
+	if z2.MathBigInt().Cmp(v) != 0 {
+		return fmt.Sprintf("changing the big.Int passed to SetMathBigInt afterwards changed the BigInt (now %s)", z2.String())
+	}
+	// MathBigInt result independent of the receiver, both directions
+	var z3 apd.BigInt
+	z3.SetMathBigInt(v)
+	out := z3.MathBigInt()
+	out.Add(out, big.NewInt(5))
+	if z3.MathBigInt().Cmp(v) != 0 {
+		return "changing the value returned by MathBigInt changed the receiver"
+	}
+	out2 := z3.MathBigInt()
+	bump(&z3)
+	if out2.Cmp(v) != 0 {
+		return "in-place arithmetic on the receiver changed a value returned earlier by MathBigInt"
+	}
+	// Set / NewWithBigInt / Decimal.Set copy as well
+	var src, dst apd.BigInt
+	src.SetMathBigInt(v)
+	dst.Set(&src)
+	bump(&dst)
+	if src.MathBigInt().Cmp(v) != 0 {
+		return "in-place arithmetic on the destination of BigInt.Set changed the source"
+	}
+	d := apd.NewWithBigInt(&src, 0)
+	bump(&d.Coeff)
+	if src.MathBigInt().Cmp(v) != 0 {
+		return "in-place arithmetic on the coefficient of a Decimal made by NewWithBigInt changed the argument"
+	}
+	var d2 apd.Decimal
+	d2.Set(d)
+	bump(&d2.Coeff)
+	want := new(big.Int).Add(new(big.Int).Abs(v), big.NewInt(1))
+	if d.Coeff.MathBigInt().Cmp(want) != 0 {
+		return "in-place arithmetic on the destination of Decimal.Set changed the source"
+	}
+	return ""
+}
+
 // snapBig is the deep snapshot of a BigInt (hidden representation included).
 func snapBig(z *apd.BigInt) string {
 	var d apd.Decimal
@@ -402,6 +487,13 @@ func c06Replay(kind string, raw json.RawMessage) string {
 			return fmt.Sprintf("the coefficient argument was modified: %s -> %s", before, after)
 		}
 		return ""
+	}
+	if kind == "storage" {
+		b, ok := new(big.Int).SetString(p.Hist, 10)
+		if !ok {
+			return "bad replay file"
+		}
+		return c06Storage(b)
 	}
 	if kind == "globals" {
 		return "re-run ./run.sh C06 (the package-level snapshot is compared across a batch of operations: " + p.Hist + ")"
